@@ -879,7 +879,8 @@ func (v *VecDense) RowViewOf(m RawMatrixer, i int) {
 //
 //	v[i] is moved to v[p[i]] for i=0,1,...,n-1.
 //
-// p must have length n, otherwise Permute will panic.
+// p must have length n, otherwise Permute will panic. Permute panics with
+// ErrPivot if p is not a permutation of the integers 0,...,n-1.
 func (v *VecDense) Permute(p []int, inverse bool) {
 	v.asDense().PermuteRows(p, inverse)
 }
